@@ -1255,10 +1255,11 @@ func (s *Scanner) switchToComment() {
 
 func stateAnyCommentStart(s *Scanner, c byte) state {
 	if c != '#' {
-		// any symbol inline user comment
+		// any symbol inline user comment; the symbol may be the line break
+		// that ends an empty comment
 		s.annotation = annotationNone
 		s.step = stateInlineComment
-		return scanContinue
+		return s.step(s, c)
 	} else if s.index < s.dataSize && s.data[s.index] == '#' { // third #
 		s.annotation = annotationNone
 		s.step = stateMultiLineComment
